@@ -43,8 +43,15 @@ TEMPLATES = [
     # (not drawn by gen_formula; scenario families only) a reference read as an attribute of the space itself
     "def {n}(x): return _space.{r} + x",
     # (not drawn by gen_formula; motif programs only) a value that depends on the NAME of the cells' space and of
-    # its ancestors (the model's name left out): renaming a space changes what the formula returns
-    "def {n}(x): return sum(map(ord, _space.fullname.split('.', 1)[1])) * 10 + x + {k}",
+    # its ancestors (the model's name left out): renaming a space changes what the formula returns.  Only the names
+    # the USER chose: the name of an ItemSpace on the path (`__Space<n>`) is read as `[]` (so a cells of an ItemSpace
+    # still answers differently from the cells of the static space it was made from), because <n> is the parent's
+    # running count of ItemSpaces created so far (`itemspacenamer`, never reset by `del_all_itemspaces`) - a function
+    # of how many were created and discarded by earlier evaluations, not of the definitions (R9C02: with it a live
+    # model answered from `C.X.__Space3` what the edits-only model answered from `C.X.__Space1`, 20 apart, no value
+    # stale).  For a static space the text read is what it always was (`C.X`).
+    "def {n}(x): return sum(map(ord, '.'.join('[]' if p.startswith('__Space') else p "
+    "for p in _space.fullname.split('.')[1:]))) * 10 + x + {k}",
 ]
 N_GEN_TEMPLATES = 16
 N_BASE_TEMPLATES = 11
